@@ -207,6 +207,11 @@ func abortHook(kind, detail string) {
 
 var curIndex int64
 
+// nativeGoroutines: the instrumentation is degraded, goroutines the code under
+// test starts may be native ones; scenarios whose expected outcome is a panic
+// are left out (such a panic could not be recovered).
+var nativeGoroutines = os.Getenv("SIM_NATIVE") != ""
+
 // runRace0 is the size of the race detector's log when the concurrent run in
 // progress began (-1: no such run).
 var runRace0 int64 = -1
